@@ -59,6 +59,20 @@ func (g *G) ParamList(flags uint) string {
 	}
 	n := g.R.Intn(6)
 	var sb strings.Builder
+	if g.R.Chance(1, 12) {
+		// every known parameter name once (any order), then unknown ones: more than small arrays hold
+		known := []string{"transport=udp", "user=phone", "method=INVITE", "ttl=1", "maddr=h.example", "lr"}
+		for i := len(known) - 1; i > 0; i-- {
+			j := g.R.Intn(i + 1)
+			known[i], known[j] = known[j], known[i]
+		}
+		k := g.R.Range(3, 6)
+		sb.WriteString(strings.Join(known[:k], sep))
+		for i := g.R.Intn(4); i > 0; i-- {
+			sb.WriteString(sep + g.tok(1, 6) + g.R.Pick([]string{"", "=" + g.tok(1, 4)}))
+		}
+		return sb.String()
+	}
 	for i := 0; i < n; i++ {
 		if i > 0 {
 			sb.WriteString(g.OptLWS() + sep + g.OptLWS())
